@@ -111,6 +111,11 @@ Ltac ppop :=
   lazymatch goal with
   | |- ?P ?t => head_call t ltac:(fun c => lazymatch c with pop_state ?q => ppop_at q end)
   end.
+(* destruct the token kind the head of the goal dispatches on *)
+Ltac dtk :=
+  lazymatch goal with
+  | |- ?P ?t => head_call t ltac:(fun c => lazymatch c with match ?x with TStreamStart => _ | _ => _ end => destruct x end)
+  end.
 (* an event with its span and the next parser state, or an error at a token marker *)
 Ltac leaf :=
   rd;
@@ -135,9 +140,9 @@ Lemma node_props_ok p t :
   ParInv p -> tmark (sp_start (fst t)) -> npost (node_props p t).
 Proof.
   intros (HT & HC & HS & HK) Hm. unfold node_props, register_anchor. destruct t as [sp tk]. cbn [fst] in Hm.
-  destruct tk; try solve [leaf].
-  - rd. ppeek. destruct tk; try solve [leaf]. ptag. leaf.
-  - rd. ptag. ppeek. destruct tk; solve [leaf].
+  dtk; try solve [leaf].
+  - rd. ppeek. dtk; try solve [leaf]. ptag. leaf.
+  - rd. ptag. ppeek. dtk; solve [leaf].
 Qed.
 
 Lemma empty_or_err_ok p aid tg sp : ParInv p -> tspan sp -> epost (empty_or_err p aid tg sp).
@@ -149,14 +154,14 @@ Qed.
 Lemma node_content_ok p aid tg b i : ParInv p -> epost (node_content p aid tg b i).
 Proof.
   intros (HT & HC & HS & HK). unfold node_content. ppeek.
-  destruct tk; try destruct i; try destruct b;
+  dtk; try destruct i; try destruct b;
     first [ solve [leaf] | (apply empty_or_err_ok; [pinv|split; assumption]) | (ppop; solve [leaf]) ].
 Qed.
 
 Lemma parse_node_ok p b i : ParInv p -> epost (parse_node p b i).
 Proof.
   intros (HT & HC & HS & HK). unfold parse_node. ppeek.
-  destruct tk;
+  dtk;
     try (match goal with
          | |- context [node_props ?q ?t] =>
              let W := fresh "W" in
@@ -167,19 +172,19 @@ Proof.
 Qed.
 
 Lemma stream_start_ok p : ParInv p -> epost (stream_start p).
-Proof. intros (HT & HC & HS & HK). unfold stream_start. ppeek. destruct tk; solve [leaf]. Qed.
+Proof. intros (HT & HC & HS & HK). unfold stream_start. ppeek. dtk; solve [leaf]. Qed.
 
 Lemma process_directives_ok fuel : forall p vs tags, ParInv p -> qpost (process_directives fuel p vs tags).
 Proof.
   induction fuel as [|fuel IH]; intros p vs tags (HT & HC & HS & HK); [exact I|].
-  cbn [process_directives]. ppeek. destruct tk; try solve [leaf].
+  cbn [process_directives]. ppeek. dtk; try solve [leaf].
   - destruct vs; [exact Hs|]. apply IH. pinv.
   - destruct (_ && _); [exact Hs|]. apply IH. pinv.
 Qed.
 Lemma skip_document_ends_ok fuel : forall p, ParInv p -> qpost (skip_document_ends fuel p).
 Proof.
   induction fuel as [|fuel IH]; intros p (HT & HC & HS & HK); [exact I|].
-  cbn [skip_document_ends]. ppeek. destruct tk; try solve [leaf]. apply IH. pinv.
+  cbn [skip_document_ends]. ppeek. dtk; try solve [leaf]. apply IH. pinv.
 Qed.
 (* destruct a call whose result is a parser *)
 Ltac pcallq lem :=
@@ -195,91 +200,73 @@ Ltac pcallq lem :=
 Lemma explicit_document_start_ok p : ParInv p -> epost (explicit_document_start p).
 Proof.
   intros (HT & HC & HS & HK). unfold explicit_document_start. pcallq process_directives_ok.
-  ppeek. destruct tk; solve [leaf].
+  ppeek. dtk; solve [leaf].
 Qed.
 
 Lemma document_start_ok p implicit : ParInv p -> epost (document_start p implicit).
 Proof.
   intros (HT & HC & HS & HK). unfold document_start. pcallq skip_document_ends_ok.
   ppeek.
-  destruct tk; try solve [leaf]; try (apply explicit_document_start_ok; pinv);
+  dtk; try solve [leaf]; try (apply explicit_document_start_ok; pinv);
     (destruct implicit; [|apply explicit_document_start_ok; pinv]); pcallq process_directives_ok; solve [leaf].
 Qed.
 
 Lemma document_content_ok p : ParInv p -> epost (document_content p).
 Proof.
   intros (HT & HC & HS & HK). unfold document_content. ppeek.
-  destruct tk; first [ apply parse_node_ok; pinv | (ppop; solve [leaf]) ].
+  dtk; first [ apply parse_node_ok; pinv | (ppop; solve [leaf]) ].
 Qed.
 
 Lemma document_end_ok p : ParInv p -> epost (document_end p).
 Proof.
   intros (HT & HC & HS & HK). unfold document_end. ppeek.
-  destruct tk; rd; destruct (p_keep_tags _); rd; try solve [leaf]; (ppeek; destruct tk; solve [leaf]).
+  destruct tk; rd; destruct (p_keep_tags _); rd; try solve [leaf]; (ppeek; dtk; solve [leaf]).
 Qed.
 
 Ltac pnode := apply parse_node_ok; pinv.
+(* finish a branch: an event / an error / a node / a pop, possibly after one or two more token dispatches *)
+Ltac fin1 := rd; first [ solve [leaf] | pnode | (ppop; solve [leaf]) ].
+Ltac fin2 := first [ fin1 | (ppeek; dtk; fin1) ].
+Ltac fin3 := first [ fin2 | (ppeek; dtk; fin2) ].
 
 Lemma block_mapping_key_ok p first : ParInv p -> epost (block_mapping_key p first).
 Proof.
-  intros (HT & HC & HS & HK). unfold block_mapping_key. destruct first; rd; [ppeek|]; ppeek;
-    (destruct tk; try solve [leaf]; [ppeek; destruct tk; first [solve [leaf] | pnode] | ppop; solve [leaf]]).
+  intros (HT & HC & HS & HK). unfold block_mapping_key. destruct first; rd; [ppeek|]; ppeek; dtk; fin2.
 Qed.
 
 Lemma block_mapping_value_ok p : ParInv p -> epost (block_mapping_value p).
-Proof.
-  intros (HT & HC & HS & HK). unfold block_mapping_value. ppeek.
-  destruct tk; try solve [leaf]. ppeek. destruct tk; first [solve [leaf] | pnode].
-Qed.
+Proof. intros (HT & HC & HS & HK). unfold block_mapping_value. ppeek. dtk; fin2. Qed.
 
 Lemma flow_mapping_key_ok p first : ParInv p -> epost (flow_mapping_key p first).
 Proof.
   intros (HT & HC & HS & HK). unfold flow_mapping_key. destruct first; rd.
-  - ppeek. ppeek. destruct tk; try (ppop; solve [leaf]);
-      (ppeek; destruct tk; first [ solve [leaf] | pnode | (ppop; solve [leaf])
-                                | (ppeek; destruct tk; first [solve [leaf] | pnode]) ]).
-  - ppeek. destruct tk; try (ppop; solve [leaf]);
-      (ppeek; destruct tk; try solve [leaf]; rd;
-       ppeek; destruct tk; first [ solve [leaf] | pnode | (ppop; solve [leaf])
-                                 | (ppeek; destruct tk; first [solve [leaf] | pnode]) ]).
+  - ppeek. ppeek. dtk; fin3.
+  - ppeek. dtk; try fin1; (ppeek; dtk; fin3).
 Qed.
 
 Lemma flow_mapping_value_ok p empty : ParInv p -> epost (flow_mapping_value p empty).
 Proof.
-  intros (HT & HC & HS & HK). unfold flow_mapping_value. destruct empty; ppeek; [solve [leaf]|].
-  destruct tk; try solve [leaf]. ppeek. destruct tk; first [solve [leaf] | pnode].
+  intros (HT & HC & HS & HK). unfold flow_mapping_value. destruct empty; ppeek; [solve [leaf]|]. dtk; fin2.
 Qed.
 
 Lemma flow_sequence_entry_ok p first : ParInv p -> epost (flow_sequence_entry p first).
 Proof.
-  intros (HT & HC & HS & HK). unfold flow_sequence_entry. destruct first; rd; [ppeek|]; ppeek;
-    (destruct tk; try (ppop; solve [leaf]); rd; try solve [leaf];
-     ppeek; destruct tk; first [ solve [leaf] | pnode | (ppop; solve [leaf]) ]).
+  intros (HT & HC & HS & HK). unfold flow_sequence_entry. destruct first; rd; [ppeek|]; ppeek; dtk; fin2.
 Qed.
 
 Lemma indentless_sequence_entry_ok p : ParInv p -> epost (indentless_sequence_entry p).
-Proof.
-  intros (HT & HC & HS & HK). unfold indentless_sequence_entry. ppeek.
-  destruct tk; try (ppop; solve [leaf]). ppeek. destruct tk; first [solve [leaf] | pnode].
-Qed.
+Proof. intros (HT & HC & HS & HK). unfold indentless_sequence_entry. ppeek. dtk; fin2. Qed.
 
 Lemma block_sequence_entry_ok p first : ParInv p -> epost (block_sequence_entry p first).
 Proof.
-  intros (HT & HC & HS & HK). unfold block_sequence_entry. destruct first; rd; [ppeek|]; ppeek;
-    (destruct tk; try solve [leaf]; try (ppop; solve [leaf]); ppeek; destruct tk; first [solve [leaf] | pnode]).
+  intros (HT & HC & HS & HK). unfold block_sequence_entry. destruct first; rd; [ppeek|]; ppeek; dtk; fin2.
 Qed.
 
 Lemma flow_sequence_entry_mapping_key_ok p : ParInv p -> epost (flow_sequence_entry_mapping_key p).
-Proof.
-  intros (HT & HC & HS & HK). unfold flow_sequence_entry_mapping_key. ppeek.
-  destruct tk; first [solve [leaf] | pnode].
-Qed.
+Proof. intros (HT & HC & HS & HK). unfold flow_sequence_entry_mapping_key. ppeek. dtk; fin1. Qed.
 
 Lemma flow_sequence_entry_mapping_value_ok p : ParInv p -> epost (flow_sequence_entry_mapping_value p).
-Proof.
-  intros (HT & HC & HS & HK). unfold flow_sequence_entry_mapping_value. ppeek.
-  destruct tk; try solve [leaf]. ppeek. destruct tk; first [solve [leaf] | pnode].
-Qed.
+Proof. intros (HT & HC & HS & HK). unfold flow_sequence_entry_mapping_value. ppeek. dtk; fin2. Qed.
 
 (* one step of the parser: the event's span and the error marker are true marks, the invariant is kept *)
 Theorem state_machine_ok p : ParInv p -> epost (state_machine p).
